@@ -265,6 +265,46 @@ impl Prop for C10 {
                     engine::witness("paths_with_replace_call");
                 }
                 obs = format!("{:?}", mon.calls);
+                if s.pipe == Pipe::Replace {
+                    // the same adapter object used for the script twice in a row: same calls both times
+                    struct Plain(Vec<Call>);
+                    impl DiffHook for Plain {
+                        type Error = ();
+                        fn equal(&mut self, a: usize, b: usize, c: usize) -> Result<(), ()> {
+                            self.0.push(Call::Equal(a, b, c));
+                            Ok(())
+                        }
+                        fn delete(&mut self, a: usize, b: usize, c: usize) -> Result<(), ()> {
+                            self.0.push(Call::Delete(a, b, c));
+                            Ok(())
+                        }
+                        fn insert(&mut self, a: usize, b: usize, c: usize) -> Result<(), ()> {
+                            self.0.push(Call::Insert(a, b, c));
+                            Ok(())
+                        }
+                        fn replace(&mut self, a: usize, b: usize, c: usize, d: usize) -> Result<(), ()> {
+                            self.0.push(Call::Replace(a, b, c, d));
+                            Ok(())
+                        }
+                        fn finish(&mut self) -> Result<(), ()> {
+                            self.0.push(Call::Finish);
+                            Ok(())
+                        }
+                    }
+                    let mut plain = Plain(vec![]);
+                    {
+                        let mut d = Replace::new(&mut plain);
+                        feed(&ops, &mut d).unwrap();
+                        feed(&ops, &mut d).unwrap();
+                    }
+                    let half = plain.0.len() / 2;
+                    claim!(
+                        plain.0.len() % 2 == 0 && plain.0[..half] == plain.0[half..],
+                        "the same script fed twice through one Replace adapter gives different calls the second time: {:?}",
+                        plain.0
+                    );
+                    engine::witness("paths_with_a_reused_adapter");
+                }
             }
             Pipe::CompactReplace => {
                 let mut d = Compact::new(Replace::new(Capture::new()), &inp.old, &inp.new);
@@ -330,10 +370,10 @@ impl Prop for C10 {
                 "similar::DiffOp::{apply_to_hook, grow_left/right, shrink_left/right, shift_left/right, is_empty}",
                 "similar::algorithms::utils::{common_prefix_len, common_suffix_len}",
             ],
-            bounds: format!("all valid scripts over sequences of lengths n,m in 0..={}: every lattice path (0,0)->(n,m) in unit steps equal/delete/insert, cut into runs in every way (split Equal runs, insert-before-delete, alternating runs), with exact carried indices; items symbolic, only the equalities stated by the script's Equal runs are assumed; pipelines Compact, Replace, Compact<Replace>; plus offset-lookup / padded layouts for n+m<=5; plus, for each long structured input of common.rs::long_layouts (about 30 (thorough 53) inputs of 40..600 items a side, some as sub-ranges at unequal offsets), up to seven valid scripts (common prefix / suffix as Equal runs around one Delete+Insert in both orders, the same cut into chunks of 7 / 5, prefix only, suffix only, a longest-common-subsequence alignment as runs and in unit steps)", match tier { Tier::Quick => 5, Tier::Thorough => 6 }),
+            bounds: format!("all valid scripts over sequences of lengths n,m in 0..={}: every lattice path (0,0)->(n,m) in unit steps equal/delete/insert, cut into runs in every way (split Equal runs, insert-before-delete, alternating runs), with exact carried indices; items symbolic, only the equalities stated by the script's Equal runs are assumed; pipelines Compact, Replace, Compact<Replace>, and one Replace object fed the script twice in a row; plus offset-lookup / padded layouts for n+m<=5; plus, for each long structured input of common.rs::long_layouts (about 30 (thorough 53) inputs of 40..600 items a side, some as sub-ranges at unequal offsets), up to seven valid scripts (common prefix / suffix as Equal runs around one Delete+Insert in both orders, the same cut into chunks of 7 / 5, prefix only, suffix only, a longest-common-subsequence alignment as runs and in unit steps)", match tier { Tier::Quick => 5, Tier::Thorough => 6 }),
             outside: "longer sequences; scripts whose carried indices are not exact (the adapters' input contract)".into(),
             assumptions: vec!["the input script is valid: positive lengths, exact positions, Equal runs pair equal items (assumed into the path condition before the run)".into()],
-            required_witnesses: if self.0 { vec!["paths_that_took_a_compaction_swap", "scripts_with_split_equal_runs", "long_structured_paths"] } else { vec!["paths_that_took_a_compaction_swap", "scripts_with_insert_before_delete", "scripts_with_split_equal_runs", "paths_with_replace_call", "long_structured_paths"] },
+            required_witnesses: if self.0 { vec!["paths_that_took_a_compaction_swap", "scripts_with_split_equal_runs", "long_structured_paths"] } else { vec!["paths_that_took_a_compaction_swap", "scripts_with_insert_before_delete", "scripts_with_split_equal_runs", "paths_with_replace_call", "long_structured_paths", "paths_with_a_reused_adapter"] },
             rule: "one state = one explored path = one script skeleton x one equality pattern of the items consistent with it".into(),
         }
     }
